@@ -84,14 +84,20 @@ def compare_rotated(before, after, k, ctx, where, report):
                 ok = False
                 break
     ft1 = feature_table(after)
-    if set(ft1) != set(ft0):
-        report("rotation-features-lost", "%s by %d: feature keys %s became %s" % (where, k, sorted(map(str, ft0)), sorted(map(str, ft1))), n=n, k=k)
+    back = lambda p: ("gap", (p[1] - kk) % n) if isinstance(p, tuple) else (p - kk) % n
+    keyed0 = {key: v for key, v in ft0.items() if key[0] == "uid"}
+    keyed1 = {key: v for key, v in ft1.items() if key[0] == "uid"}
+    plain0 = [v for key, v in ft0.items() if key[0] != "uid"]
+    plain1 = [v for key, v in ft1.items() if key[0] != "uid"]
+    if set(keyed1) != set(keyed0) or len(plain0) != len(plain1):
+        report("rotation-features-lost", "%s by %d: feature keys %s became %s (%d/%d without uid)" % (
+            where, k, sorted(map(str, keyed0)), sorted(map(str, keyed1)), len(plain0), len(plain1)), n=n, k=k)
         ok = False
-    for key in ft0:
-        if key not in ft1:
+    for key in keyed0:
+        if key not in keyed1:
             continue
-        t0, i0, q0, p0 = ft0[key]
-        t1, i1, q1, p1 = ft1[key]
+        t0, i0, q0, p0 = keyed0[key]
+        t1, i1, q1, p1 = keyed1[key]
         if (t0, i0, q0) != (t1, i1, q1):
             report("rotation-feature-metadata", "%s by %d: feature %s type/id/qualifiers changed: %r -> %r" % (where, k, key, (t0, i0, q0), (t1, i1, q1)), n=n, k=k)
             ok = False
@@ -100,12 +106,31 @@ def compare_rotated(before, after, k, ctx, where, report):
             ok = False
         elif p0 is not None:
             d0 = denote({"parts": p0}, n)
-            back = lambda p: ("gap", (p[1] - kk) % n) if isinstance(p, tuple) else (p - kk) % n
             d1 = [(back(p), st) for p, st in denote({"parts": p1}, n)]
             if not same_denotation(d0, d1, n):
                 report("rotation-feature-location", "%s by %d on length %d: feature %s at %r moved to %r, which denotes other nucleotides" % (where, k, n, key, p0, p1), n=n, k=k, before=p0, after=p1)
                 ok = False
             ctx.count("rotation_feature_checks")
+    # features without a uid: a multiset matched by type + id + qualifiers + denotation (their order is not part of the property)
+    rest = list(plain1)
+    for t0, i0, q0, p0 in plain0:
+        hit = None
+        for f1 in rest:
+            t1, i1, q1, p1 = f1
+            if (t0, i0, q0) != (t1, i1, q1) or (p0 is None) != (p1 is None):
+                continue
+            if p0 is None or same_denotation(denote({"parts": p0}, n), [(back(p), st) for p, st in denote({"parts": p1}, n)], n):
+                hit = f1
+                break
+        ctx.count("rotation_feature_checks")
+        if hit is None:
+            cands = [x[3] for x in rest if x[0] == t0 and x[2] == q0]
+            mech = "rotation-feature-location" if cands else "rotation-feature-metadata"
+            report(mech, "%s by %d on length %d: the %s feature at %r (no uid) has no counterpart denoting the same nucleotides with the same type and qualifiers (candidates %r)" % (
+                where, k, n, t0, p0, cands[:3]), n=n, k=k, before=p0)
+            ok = False
+        else:
+            rest.remove(hit)
     if meta_of(after) != meta0:
         report("rotation-metadata", "%s by %d: id/name/description/dbxrefs/annotations changed: %r -> %r" % (where, k, meta0, meta_of(after)), n=n, k=k)
         ok = False
@@ -305,7 +330,9 @@ class SearchMonitor(object):
 # ----------------------------------------------------------------------------- C14
 
 def compare_reverse_complement(before, after, ctx, where, report, check_seq=True):
-    """judge `after` as the reverse complement of `before` (snapshot_for_rotation tuple)"""
+    """judge `after` as the reverse complement of `before` (snapshot_for_rotation tuple).
+    Features carrying a uid are matched through it; the others (Biopython re-sorts the feature table, so their
+    index means nothing) are matched as a multiset by type + qualifiers + mirrored denotation."""
     s0, la0, ft0, meta0 = before
     n = len(s0)
     s1 = str(after.seq)
@@ -318,29 +345,61 @@ def compare_reverse_complement(before, after, ctx, where, report, check_seq=True
         elif la1[t] != list(v)[::-1]:
             report("rc-letter-annotations", "%s: per-letter track %r is not reversed with the sequence (%r -> %r)" % (where, t, list(v)[:8], la1[t][:8]), n=n)
     ft1 = feature_table(after)
-    if set(ft1) != set(ft0):
-        report("rc-features-lost", "%s: feature keys %s became %s" % (where, sorted(map(str, ft0)), sorted(map(str, ft1))), n=n)
-    for key in ft0:
-        if key not in ft1:
-            continue
-        t0, i0, q0, p0 = ft0[key]
-        t1, i1, q1, p1 = ft1[key]
+    mirror = lambda p: ("gap", (n - p[1]) % n) if isinstance(p, tuple) else (n - 1 - p) % n
+
+    def judge_pair(key, f0, f1):
+        t0, i0, q0, p0 = f0
+        t1, i1, q1, p1 = f1
         if (t0, q0) != (t1, q1):
             report("rc-feature-metadata", "%s: feature %s type/qualifiers changed: %r -> %r" % (where, key, (t0, q0), (t1, q1)), n=n)
         if p0 is None or p1 is None:
             if p0 != p1:
                 report("rc-feature-location", "%s: feature %s location %r -> %r" % (where, key, p0, p1), n=n)
-            continue
+            return
         stranded = all(st in (1, -1) for _, _, st in p0)
         d0 = denote({"parts": p0}, n)
         d1 = denote({"parts": p1}, n)
-        mirror = lambda p: ("gap", (n - p[1]) % n) if isinstance(p, tuple) else (n - 1 - p) % n
         exp = [(mirror(p), (-st if st else st)) for p, st in d0]
         ctx.count("rc_feature_checks")
         if [st for _, st in d1] != [st for _, st in exp] and len(d1) == len(exp):
             report("rc-feature-strand", "%s: feature %s at %r became %r: strand not flipped" % (where, key, p0, p1), n=n, before=p0, after=p1)
         elif not same_denotation(exp, d1, n, stranded=stranded):
             report("rc-feature-location", "%s on length %d: feature %s at %r became %r, which is not the mirror image p -> n-1-p in the same reading order" % (where, n, key, p0, p1), n=n, before=p0, after=p1)
+
+    keyed0 = {k: v for k, v in ft0.items() if k[0] == "uid"}
+    keyed1 = {k: v for k, v in ft1.items() if k[0] == "uid"}
+    if set(keyed0) != set(keyed1):
+        report("rc-features-lost", "%s: feature keys %s became %s" % (where, sorted(map(str, keyed0)), sorted(map(str, keyed1))), n=n)
+    for key in keyed0:
+        if key in keyed1:
+            judge_pair(key, keyed0[key], keyed1[key])
+    plain0 = [v for k, v in ft0.items() if k[0] != "uid"]
+    plain1 = [v for k, v in ft1.items() if k[0] != "uid"]
+    if len(plain0) != len(plain1):
+        report("rc-features-lost", "%s: %d feature(s) without uid before, %d after" % (where, len(plain0), len(plain1)), n=n)
+    rest = list(plain1)
+    for f0 in plain0:
+        t0, i0, q0, p0 = f0
+        hit = None
+        for f1 in rest:
+            t1, i1, q1, p1 = f1
+            if (t0, q0) != (t1, q1) or (p0 is None) != (p1 is None):
+                continue
+            if p0 is None:
+                hit = f1
+                break
+            stranded = all(st in (1, -1) for _, _, st in p0)
+            exp = [(mirror(p), (-st if st else st)) for p, st in denote({"parts": p0}, n)]
+            d1 = denote({"parts": p1}, n)
+            if [st for _, st in d1] == [st for _, st in exp] and same_denotation(exp, d1, n, stranded=stranded):
+                hit = f1
+                break
+        ctx.count("rc_feature_checks")
+        if hit is None:
+            report("rc-feature-location", "%s on length %d: the %s feature at %r (no uid) has no mirror image with the same type and qualifiers among %r" % (
+                where, n, t0, p0, [x[3] for x in rest if x[0] == t0][:4]), n=n, before=p0)
+        else:
+            rest.remove(hit)
 
 
 class ReverseComplementMonitor(object):
